@@ -151,7 +151,7 @@ func cmdCheck(args []string) int {
 		fmt.Println("UNDECIDED property=" + *prop + " reason=unknown property")
 		return 2
 	}
-	eng := &Engine{fset: token.NewFileSet(), pkgs: map[string]*packages.Package{}, cfiles: map[string]*ContractFile{}, contracts: map[string]*Contract{}, ghosts: map[string]*GhostFn{}, lemmas: map[string]*Lemma{}, lemmaPkg: map[string]string{}, repo: *repo, contractHome: map[*Contract]string{}, immutable: map[string]bool{}, ghostFields: map[string][]GhostField{}, ghostFieldHome: map[string]string{}}
+	eng := &Engine{fset: token.NewFileSet(), pkgs: map[string]*packages.Package{}, cfiles: map[string]*ContractFile{}, contracts: map[string]*Contract{}, ghosts: map[string]*GhostFn{}, lemmas: map[string]*Lemma{}, lemmaPkg: map[string]string{}, repo: *repo, contractHome: map[*Contract]string{}, immutable: map[string]bool{}, ghostVars: map[string]SVar{}, ghostFields: map[string][]GhostField{}, ghostFieldHome: map[string]string{}}
 	if err := eng.load(pc.Packages); err != nil {
 		fmt.Printf("UNDECIDED property=%s reason=%v\n", *prop, err)
 		return 2
@@ -287,6 +287,24 @@ func cmdCheck(args []string) int {
 		return nil
 	}
 
+	// an assertion that is assumed after it is checked (in-body asserts, `always` clauses) must
+	// itself be discharged; otherwise everything after it in the same function is conditional
+	for _, r := range results {
+		blocked := ""
+		for _, o := range r.Obls {
+			if o.ExpectSat {
+				continue
+			}
+			if blocked != "" && o.Status == "unsat" {
+				o.Status = "conditional"
+				o.Raw = map[string]string{"note": "depends on the undischarged assertion " + blocked}
+				continue
+			}
+			if blocked == "" && o.Status != "unsat" && (o.Kind == "assert" || o.Kind == "always") {
+				blocked = o.Name
+			}
+		}
+	}
 	rep := &Report{Prop: *prop, Tier: *tier, Seed: seed, Verif: *verif, Repo: *repo, Config: pc, BySolver: map[string]int{}, ByKind: map[string]int{}}
 	exit := 0
 	var outside []string
